@@ -14,7 +14,8 @@ Local Notation length := List.length.
 
 Lemma run_batch_S ord m g f s tasks log :
   run_batch ord m g (S f) s tasks log =
-  (if existsb failed tasks then (OFail, log ++ log_of tasks) else
+  (if existsb prefail tasks then (OFail, log) else
+   if existsb failed tasks then (OFail, log ++ log_of tasks) else
    match tasks with
    | [] => (OFail, log ++ log_of tasks)
    | _ => match calc_next m g s (ord (map run_task tasks)) with
@@ -24,17 +25,19 @@ Lemma run_batch_S ord m g f s tasks log :
    end).
 Proof. reflexivity. Qed.
 
-Lemma run_batch_log_prefix m g : forall fuel s tasks log,
+Lemma run_batch_log_prefix m g : forall fuel s tasks log, existsb prefail tasks = false ->
   exists suffix, snd (run_batch (fun l => l) m g (S fuel) s tasks log) = (log ++ log_of tasks) ++ suffix.
 Proof.
-  induction fuel as [|f IH]; intros s tasks log; rewrite run_batch_S.
+  induction fuel as [|f IH]; intros s tasks log Hpf; rewrite run_batch_S, Hpf.
   - destruct (existsb failed tasks); [exists []; simpl; rewrite ?app_nil_r; reflexivity|].
     destruct tasks as [|t0 ts0]; [exists []; simpl; rewrite ?app_nil_r; reflexivity|].
     destruct (calc_next m g s _); exists []; simpl; rewrite ?app_nil_r; reflexivity.
   - destruct (existsb failed tasks); [exists []; simpl; rewrite ?app_nil_r; reflexivity|].
     destruct tasks as [|t0 ts0]; [exists []; simpl; rewrite ?app_nil_r; reflexivity|].
     destruct (calc_next m g s _) as [v|ts s']; [exists []; simpl; rewrite ?app_nil_r; reflexivity|].
-    destruct (IH s' ts (log ++ log_of (t0 :: ts0))) as [suf E].
+    destruct (existsb prefail ts) eqn:Epf.
+    { rewrite run_batch_S, Epf. exists []. simpl. rewrite ?app_nil_r. reflexivity. }
+    destruct (IH s' ts (log ++ log_of (t0 :: ts0)) Epf) as [suf E].
     exists (log_of ts ++ suf). rewrite E. rewrite <- !app_assoc. reflexivity.
 Qed.
 
@@ -75,7 +78,8 @@ Definition LKb (s : st) (r : rl) : Prop :=
 Lemma lkb_init : LKb init (rl_init true m g F).
 Proof.
   unfold LKb, rl_init. destruct (start_next m g) as [v|ts ch]; simpl; [discriminate|].
-  unfold enter. destruct F as [|f]; simpl; [discriminate|]. intros _.
+  unfold enter. destruct F as [|f]; simpl; [discriminate|].
+  destruct (existsb prefail ts); simpl; [discriminate|]. intros _.
   split; [reflexivity|]. split; [exists []; reflexivity|].
   rewrite app_nil_r. split; [apply Permutation_refl|]. split; [rewrite log_of_ids; apply Permutation_refl|].
   split; [|apply incl_refl].
@@ -83,12 +87,12 @@ Proof.
 Qed.
 
 Lemma bi_nodup_run r : BI m g F r -> r_res r = None -> NoDup (ids_of (r_run r)).
-Proof. unfold BI. intros B Hn. rewrite Hn in B. destruct B as (ch' & log0 & _ & _ & Hok & _). exact Hok. Qed.
+Proof. unfold BI. intros B Hn. rewrite Hn in B. destruct B as (ch' & log0 & _ & _ & Hok & _ & _). exact Hok. Qed.
 
 Lemma bi_nodup_log r : BI m g F r -> r_res r = None -> NoDup (map fst (r_log r)).
 Proof.
-  unfold BI. intros B Hn. rewrite Hn in B. destruct B as (ch' & log0 & _ & Hl & _ & Hb).
-  destruct (run_batch_log_prefix m g (r_fuel r) ch' (r_run r) log0) as [suf E].
+  unfold BI. intros B Hn. rewrite Hn in B. destruct B as (ch' & log0 & _ & Hl & _ & Hpf & Hb).
+  destruct (run_batch_log_prefix m g (r_fuel r) ch' (r_run r) log0 Hpf) as [suf E].
   rewrite Hb in E. rewrite E in Hfresh. rewrite <- Hl in Hfresh. rewrite map_app in Hfresh.
   eapply nodup_app_l; exact Hfresh.
 Qed.
@@ -146,7 +150,8 @@ Proof.
     destruct (calc_next m g (r_ch r) (map run_task (c0 :: cts0))) as [v|ts ch'];
       [inversion Hr; subst; unfold LKb; simpl; discriminate|].
     inversion Hr; subst. unfold LKb, enter.
-    destruct (r_fuel r) as [|f]; simpl; [discriminate|]. intros _.
+    destruct (r_fuel r) as [|f]; simpl; [discriminate|].
+    destruct (existsb prefail ts); simpl; [discriminate|]. intros _.
     specialize (K Hn). destruct K as (K0 & Kc & K1 & K2 & K3 & K4).
     match goal with H : r_exp r = [] |- _ => rewrite H in * end. simpl in K1, K2. rewrite app_nil_r in K1, K2.
     split; [reflexivity|]. split; [exists []; reflexivity|].
@@ -267,7 +272,8 @@ Proof.
     destruct (calc_next m g (r_ch r) (map run_task (c0 :: cts0))) as [v|ts ch'] eqn:Ec;
       [inversion Hr; subst; left; simpl; discriminate|].
     inversion Hr; subst. unfold enter.
-    destruct (r_fuel r) as [|f]; simpl; [left; discriminate|]. right.
+    destruct (r_fuel r) as [|f]; simpl; [left; discriminate|].
+    destruct (existsb prefail ts); simpl; [left; discriminate|]. right.
     pose proof (calc_next_len _ _ _ _ _ _ Ec) as Lt. rewrite He. simpl.
     nia.
   - discriminate.
